@@ -106,6 +106,19 @@ func Lists(thorough bool, variant string) []gen.ListSpec {
 		for _, t := range ts {
 			out = append(out, gen.ListSpec{Nodes: abc, Edges: []gen.EdgeSpec{{From: "a", Type: sbom.Edge_Type(t), To: []string{"b"}}, {From: "a", Type: sbom.Edge_Type(t), To: []string{"c", "b"}}}, Roots: []string{"a"}})
 		}
+	case "empty-targets":
+		// edge objects that are declared but have no destinations (an empty To list), alone and next to populated ones
+		ab := []string{"a", "b", "c"}
+		var objs []gen.EdgeSpec
+		for _, f := range ab {
+			for _, ty := range t2 {
+				objs = append(objs, gen.EdgeSpec{From: f, Type: ty, To: []string{}})
+			}
+		}
+		objs = append(objs, gen.EdgeSpec{From: "a", Type: sbom.Edge_contains, To: []string{"b"}}, gen.EdgeSpec{From: "c", Type: sbom.Edge_dependsOn, To: []string{"b"}}, gen.EdgeSpec{From: "c", Type: sbom.Edge_dependsOn, To: []string{"a", "b"}}, gen.EdgeSpec{From: "a", Type: sbom.Edge_contains, To: []string{"c"}})
+		gen.EdgeLists(objs, 2, func(el []gen.EdgeSpec) {
+			out = append(out, gen.ListSpec{Nodes: ab, Edges: el, Roots: []string{"a"}})
+		})
 	case "near-ids":
 		// identifiers that coincide under case folding or trimming: any index that normalises its keys merges them
 		ids := []string{"n", "N", "n "}
@@ -160,7 +173,7 @@ func Run(c *engine.Ctx) {
 		}
 	}
 
-	for _, fam := range []string{"collisions", "near-ids", "edge-types", "wide"} {
+	for _, fam := range []string{"collisions", "near-ids", "edge-types", "empty-targets", "wide"} {
 		F := Lists(c.Thorough(), fam)
 		c.Group(fam)
 		c.Bound(fam, fmt.Sprintf("all %d x %d ordered pairs of the %s family", len(F), len(F), fam))
@@ -222,6 +235,69 @@ func Run(c *engine.Ctx) {
 
 	attrCube(c)
 	nearVersions(c)
+	attrWide(c)
+}
+
+// WideAttrOperands builds two node lists of n nodes each that share every identifier, stored in different,
+// unsorted orders, where every shared node has different non-empty attribute values on the two sides (size classes
+// for the attribute rule: thresholds of sorting and indexing code are invisible to two-node lists).
+func WideAttrOperands(n int) (*sbom.NodeList, *sbom.NodeList) {
+	mk := func(tag string, order func(i int) int) *sbom.NodeList {
+		nl := &sbom.NodeList{}
+		for i := 0; i < n; i++ {
+			k := order(i)
+			id := fmt.Sprintf("lib-%03d", k)
+			nl.Nodes = append(nl.Nodes, &sbom.Node{Id: id, Name: tag + "-name-" + id, Version: tag + "-1." + fmt.Sprint(k), Licenses: []string{tag + "-lic"}, Hashes: map[int32]string{1: tag + id}})
+		}
+		nl.RootElements = []string{nl.Nodes[0].Id}
+		return nl
+	}
+	a := mk("A", func(i int) int { return (i*7 + 3) % n }) // a permutation when gcd(7,n)=1; sizes below are chosen so
+	b := mk("B", func(i int) int { return n - 1 - i })
+	return a, b
+}
+
+func attrWide(c *engine.Ctx) {
+	c.Group("attr-wide")
+	sizes := []int{3, 6, 13, 20, 100, 515}
+	c.Bound("attr-wide", fmt.Sprintf("operands of %v nodes each sharing every identifier in different unsorted orders, every shared node with different non-empty name, version, licences and hashes: Union takes the second operand's values, Add keeps the receiver's", sizes))
+	for _, n := range sizes {
+		n := n
+		c.Case(func() any { return map[string]int{"nodes-per-operand": n} }, func(t *engine.T) *engine.Violation {
+			A, B := WideAttrOperands(n)
+			u := A.Union(B)
+			t.Transitions(1)
+			t.Validated(1)
+			if len(u.Nodes) != n {
+				return engine.Violate("union-model", "wide", "union of two %d-node lists over the same identifiers has %d nodes", n, len(u.Nodes))
+			}
+			for _, bn := range B.Nodes {
+				un := u.GetNodeByID(bn.Id)
+				if un == nil {
+					return engine.Violate("union-model", "wide", "node %s missing from the union", bn.Id)
+				}
+				if un.Name != bn.Name || un.Version != bn.Version || fmt.Sprint(un.Licenses) != fmt.Sprint(bn.Licenses) || un.Hashes[1] != bn.Hashes[1] {
+					return engine.Violate("union-precedence", "wide", "%d nodes per operand: node %s has name %q version %q in the union, the second operand has %q %q (second operand wins when non-empty)", n, bn.Id, un.Name, un.Version, bn.Name, bn.Version)
+				}
+			}
+			A2, B2 := WideAttrOperands(n)
+			want := map[string]string{}
+			for _, an := range A2.Nodes {
+				want[an.Id] = an.Name
+			}
+			A2.Add(B2)
+			t.Transitions(1)
+			t.Validated(1)
+			for id, w := range want {
+				if got := A2.GetNodeByID(id); got == nil || got.Name != w {
+					return engine.Violate("add-precedence", "wide", "%d nodes per operand: node %s does not keep the receiver's name after Add", n, id)
+				}
+			}
+			t.State(fmt.Sprint("attr-wide", n))
+			t.Outcome("attr-wide-ok")
+			return nil
+		})
+	}
 }
 
 // nearVersions: the two operands hold versions of the shared node that are one single-field deviation
